@@ -106,6 +106,11 @@ theorem C11_wire_miswired_reads_fail_closed (w : Wire) (wd : World)
     (scenario w wd).commitments = 0 ∧ (scenario w wd).commitTxsAt = [] := by
   rcases h with h | h <;> simp [scenario, stakeCheck, allowanceCheck, h]
 
+/-- the stake / prepay operation of the node reports success only for a transaction that was mined
+with a success status -/
+theorem C11_wire_op_success_iff (f : TxFate) : opReportsSuccess f = true ↔ f = TxFate.minedOk := by
+  cases f <;> simp [opReportsSuccess]
+
 /-- non-vacuity: the four worlds under the real wiring -/
 example : (scenario nodeWire ⟨true, true⟩).commitments = 1 ∧ (scenario nodeWire ⟨true, false⟩).commitments = 0 ∧
     (scenario nodeWire ⟨false, true⟩).allowReadsAt = [] ∧ (scenario nodeWire ⟨true, false⟩).allowReadsAt = [Target.bidderRegistry] := by
